@@ -34,28 +34,48 @@ pub trait Integer: Constants {
     fn trailing_ones(&self) -> usize;
 }
 
-// ---- R12: mirror conversion traits with a precondition hook (vstd's From/TryFrom spec traits have none)
+// ---- R12: mirror conversion traits with a precondition hook and a relational postcondition
+// (vstd's From/TryFrom spec traits have no `_req`). The blanket impls mirror std's.
 pub trait VFrom<T>: Sized {
     spec fn v_from_req(value: T) -> bool;
+    spec fn v_from_post(value: T, r: Self) -> bool;
     fn v_from(value: T) -> (r: Self)
-        requires Self::v_from_req(value);
+        requires Self::v_from_req(value)
+        ensures Self::v_from_post(value, r);
 }
 pub trait VInto<T>: Sized {
     spec fn v_into_req(self) -> bool;
+    spec fn v_into_post(self, r: T) -> bool;
     fn v_into(self) -> (r: T)
-        requires self.v_into_req();
+        requires self.v_into_req()
+        ensures self.v_into_post(r);
+}
+impl<T, U: VFrom<T>> VInto<U> for T {
+    open spec fn v_into_req(self) -> bool { U::v_from_req(self) }
+    open spec fn v_into_post(self, r: U) -> bool { U::v_from_post(self, r) }
+    fn v_into(self) -> (r: U) { U::v_from(self) }
 }
 pub trait VTryFrom<T>: Sized {
     type Error;
     spec fn v_try_from_req(value: T) -> bool;
+    spec fn v_try_from_post(value: T, r: Result<Self, Self::Error>) -> bool;
     fn v_try_from(value: T) -> (r: Result<Self, Self::Error>)
-        requires Self::v_try_from_req(value);
+        requires Self::v_try_from_req(value)
+        ensures Self::v_try_from_post(value, r);
 }
 pub trait VTryInto<T>: Sized {
     type Error;
     spec fn v_try_into_req(self) -> bool;
+    spec fn v_try_into_post(self, r: Result<T, Self::Error>) -> bool;
     fn v_try_into(self) -> (r: Result<T, Self::Error>)
-        requires self.v_try_into_req();
+        requires self.v_try_into_req()
+        ensures self.v_try_into_post(r);
+}
+impl<T, U: VTryFrom<T>> VTryInto<U> for T {
+    type Error = U::Error;
+    open spec fn v_try_into_req(self) -> bool { U::v_try_from_req(self) }
+    open spec fn v_try_into_post(self, r: Result<U, U::Error>) -> bool { U::v_try_from_post(self, r) }
+    fn v_try_into(self) -> (r: Result<U, U::Error>) { U::v_try_from(self) }
 }
 
 // ---- T1: assumed contracts of std functions not specified by vstd
